@@ -1,7 +1,7 @@
 (* Props/C23.v — Expression evaluation obeys Cypher laws.
    Only statements, `exact`, and Print Assumptions. *)
 From NDB Require Import Base.Bytes Cypher.Value Cypher.Compare Cypher.Logic Cypher.Arith Cypher.Eval
-  Cypher.Logic_proofs Cypher.Compare_proofs Cypher.Arith_proofs.
+  Cypher.Logic_proofs Cypher.Compare_proofs Cypher.Arith_proofs Cypher.Equality_proofs.
 
 (* AND/OR/NOT are Kleene's connectives (false < null < true: AND = min, OR = max, NOT = flip),
    XOR is strict; for ALL values (anything that is not a boolean counts as null), hence in
@@ -116,3 +116,14 @@ Definition C23_overflow_rule_statement : Prop :=
 Theorem C23_overflow_rule : C23_overflow_rule_statement.
 Proof. exact (conj overflow_rule (conj int_result_exact (conj reduce_sum_rule eval_reduce_add))). Qed.
 Print Assumptions C23_overflow_rule.
+
+(* = is an equivalence (and never null) on ALL values without null and NaN at any depth:
+   nested lists and maps of booleans, integers, floats (mixed), strings, ids and paths *)
+Definition C23_eq_equivalence_all_statement : Prop :=
+  (forall a, eo a -> cy_eq a a = Some true) /\
+  (forall a b, eo a -> eo b -> cy_eq a b = cy_eq b a) /\
+  (forall a b c, eo a -> eo b -> eo c -> cy_eq a b = Some true -> cy_eq b c = Some true -> cy_eq a c = Some true) /\
+  (forall a b, eo a -> eo b -> cy_eq a b <> None).
+Theorem C23_eq_equivalence_all : C23_eq_equivalence_all_statement.
+Proof. exact eq_equivalence_all. Qed.
+Print Assumptions C23_eq_equivalence_all.
